@@ -118,10 +118,73 @@ def compare_twins(ra, rb, perm):
     return []
 
 
+def char_sets(n, acc):
+    k = n[0]
+    if k == 'lit':
+        for b in n[1]:
+            acc.add(frozenset([b]))
+    elif k == 'cls':
+        acc.add(n[1])
+    elif k in ('cat', 'alt'):
+        for x in n[1]:
+            char_sets(x, acc)
+    elif k == 'rep':
+        char_sets(n[1], acc)
+
+
+def count_ecs(sc):
+    """number of equivalence classes flex will form: bytes are equivalent when no literal and no class of any
+    pattern tells them apart (the partition is what matters, so this cannot drift far from flex's; it only steers
+    the generator)"""
+    sets = set()
+    for r in sc.rules:
+        if r.is_eof:
+            continue
+        char_sets(r.pat, sets)
+        if r.trail is not None:
+            char_sets(r.trail, sets)
+        if r.eol:
+            sets.add(frozenset([10]))
+    sets = list(sets)
+    return len({tuple(b in s for s in sets) for b in range(256)})
+
+
 def gen_scn(rng, idx=0):
     feats = ['nul'] if rng.random() < 0.7 else ['high']
     # table representations are stratified over the scenario index: each one is visited
     tables = scenario.TABLE_OPTS[idx % len(scenario.TABLE_OPTS)]
+    full_ecs = tables in ('-Cfe', '-Cfae')
+    if 'e' in (tables or '-Cem') and (full_ecs or rng.random() < 0.4):
+        # "binary run" family: no rule names NUL or an 8-bit byte, one rule takes the 7-bit rest and one takes runs
+        # of everything else - with equivalence classes NUL then shares a class (the last one) with 0x80-0xff
+        sc = scenario.gen_scenario(rng, want={'flavors': ['nr', 'nr', 'r', 'r', 'c99', 'cxx'], 'tables': tables},
+                                   forbid=('vtrail', 'nul', 'high', 'neg', 'wide', 'sdot', 'catchall'))
+        sc.buf_size = None
+        sc.rules.append(scenario.Rule(pat=rx.cls(frozenset(range(1, 128))), conds=[]))
+        if rng.random() < 0.5:
+            sc.rules.append(scenario.Rule(pat=rx.plus(rx.cls(frozenset([0]) | frozenset(range(128, 256)))), conds=[]))
+        else:
+            # NUL alone in its class, which flex numbers last
+            sc.rules.append(scenario.Rule(pat=rx.plus(rx.cls(frozenset(range(128, 256)))), conds=[]))
+            sc.rules.append(scenario.Rule(pat=rx.lit(b'\0'), conds=[]))
+        if full_ecs:
+            # full tables with equivalence classes keep NUL's transitions in a table of their own exactly when
+            # NUL's class is the last one and the number of classes is a power of two: steer half of these
+            # scenarios there by telling a few more letters apart
+            spare = [b for b in b'ghjkmnpqrstuvw' if b not in sc.alphabet]
+            for _ in range(8):
+                n = count_ecs(sc)
+                if n & (n - 1) == 0 or not spare or rng.random() < 0.1:
+                    break
+                sc.rules.insert(0, scenario.Rule(pat=rx.lit(bytes([spare.pop()])), conds=[]))
+        if sc.flavor == 'c99' and sc.c99_catchall:
+            # the catch-all of the c99 flavour stays the last rule
+            ca = [r for r in sc.rules if r.pat is not None and r.pat == rx.cls(rx.ALL)]
+            for r in ca[:1]:
+                sc.rules.remove(r)
+                sc.rules.append(r)
+        sc.alphabet = list(sc.alphabet) + [0, 0x80, 0xfe]
+        return sc
     sc = scenario.gen_scenario(rng, want={'feats': tuple(feats), 'flavors': ['nr', 'nr', 'r', 'r', 'c99', 'cxx'], 'tables': tables}, forbid=('vtrail',))
     sc.buf_size = None
     # matches that END on the special byte, with a longer rule that continues after it: the scanner must
@@ -135,6 +198,11 @@ def gen_scn(rng, idx=0):
             conds = []
             sc.rules.insert(0, scenario.Rule(pat=rx.lit(x + bytes([special]) + y), conds=conds))
             sc.rules.insert(0, scenario.Rule(pat=rx.lit(x + bytes([special])), conds=conds))
+    if 'e' in (tables or '-Cem') and rng.random() < 0.5:
+        # equivalence classes: a run of bytes that no other rule distinguishes - NUL then shares its
+        # class with every byte the rule set does not mention (and tokens hold several bytes of that class)
+        rest = rx.ALL - frozenset(b for b in sc.alphabet if b != 0)
+        sc.rules.append(scenario.Rule(pat=rx.plus(rx.cls(rest)), conds=[]))
     return sc
 
 
